@@ -33,6 +33,10 @@ func (x *run) builtinOf(tag int, b int, root godi.Scope) any {
 
 func (x *run) checkC18(root godi.Scope) *Failure {
 	bname := []string{"", "context", "scope", "provider"}
+	// a parameter object taken by pointer is the service's own: it still holds what it was given
+	if st := x.W.StaleArgs(); len(st) > 0 {
+		return fail("C18", "injected", "parameter-object-changed-later", "%s", st[0])
+	}
 	// injected built-ins
 	for _, inv := range x.W.AllInvs() {
 		reg := x.M.Regs[inv.Reg]
